@@ -175,11 +175,16 @@ func (g *c13Gen) chunk(p, rid int64) *c13Chunk {
 }
 
 // a message: the chunks and which of them are padded beyond signedIDSize
-func (g *c13Gen) message(p, rid int64, big bool) ([]*c13Chunk, []bool) {
+// mode 0: ordinary sizes only; 1: sometimes around the caps; 2: always around the caps
+func (g *c13Gen) message(p, rid int64, mode int) ([]*c13Chunk, []bool) {
 	r := g.r
 	var cs []*c13Chunk
 	var pad []bool
 	x := r.Intn(100)
+	if mode == 2 {
+		x = 99
+	}
+	big := mode > 0
 	switch {
 	case x < 50:
 		cs = []*c13Chunk{g.chunk(p, rid)}
@@ -212,7 +217,7 @@ func (g *c13Gen) message(p, rid int64, big bool) ([]*c13Chunk, []bool) {
 			cs = []*c13Chunk{g.chunk(p, rid)}
 			break
 		}
-		switch r.Intn(4) {
+		switch []int{0, 1, 2, 2, 2, 3, 3, 3}[r.Intn(8)] {
 		case 0: // protocols around maxPeerProtocols, spread over chunks
 			n := maxPeerProtocols - 3 + r.Intn(80)
 			for i := 0; i < n; i += 300 {
@@ -248,6 +253,9 @@ func (g *c13Gen) message(p, rid int64, big bool) ([]*c13Chunk, []bool) {
 			n := connectedPeerMaxAddrs - 2 + r.Intn(40)
 			c := &c13Chunk{rk: 2}
 			c.env = g.envelope(p, rid, g.manyAddrs(n, 100))
+			if r.Bool() { // a valid own record
+				c.env = &c13Envl{pub: p, ptype: 1, rpeer: p, rseq: c.env.rseq, addrs: c.env.addrs, sk: 1, sigkey: p, sdom: 1, stype: 1}
+			}
 			c.listen = g.addrs(p, rid, 2)
 			cs = []*c13Chunk{c}
 			g.out.Cover("msg.record_addrs_around_cap")
